@@ -52,9 +52,9 @@ Check(o) ==
          /\ Expect(o, "glue-clock", NormTOD(o.vc) = DenoteClock(o.C), DenoteClock(o.C))
          /\ Expect(o, "glue", GlueOK(o.vd, o.vc, o.vb), IF IsTime(o.vd) /\ IsTime(o.vc) THEN Glue(o.vd, o.vc) ELSE FAIL)
     [] o.fam = "crange" ->
-         CASE o.ctx = "date" -> Expect(o, "clock-range-on-date", ClockRangeOnDateOK(DenoteDay(o.D, o.ts), o.A, o.B, o.val), o.A)
-           [] o.ctx = "latent" -> Expect(o, "clock-range-latent", ClockRangeLatentOK(o.ts, o.A, o.B, o.val), o.A)
-           [] o.ctx = "bare" -> Expect(o, "clock-range-bare", ClockRangeBareOK(o.A, o.B, o.val), o.A)
+         (CASE o.ctx = "date" -> Expect(o, "clock-range-on-date", ClockRangeOnDateOK(DenoteDay(o.D, o.ts), o.A, o.B, o.val), o.A)
+            [] o.ctx = "latent" -> Expect(o, "clock-range-latent", ClockRangeLatentOK(o.ts, o.A, o.B, o.val), o.A)
+            [] o.ctx = "bare" -> Expect(o, "clock-range-bare", ClockRangeBareOK(o.A, o.B, o.val), o.A))
     [] o.fam = "drange" ->
          LET d1 == DenoteDay(o.D1, o.ts)  d2 == DenoteDay(o.D2, o.ts) IN
          Expect(o, "date-range", DateRangeOK(d1, d2, o.val), MkInterval(d1, d2))
